@@ -559,7 +559,14 @@ class Interp:
                 raise Unspecified('the exception class cannot be computed')
             if not (isinstance(t, type) and issubclass(t, Exception)):
                 raise Unspecified('raise of a non-class')
-        msg = self.body(n['body'], ns)
+        try:
+            msg = self.body(n['body'], ns)
+        except Unspecified:
+            raise
+        except Exception:
+            # "the rendered body as its message": a body that cannot be
+            # rendered is not covered by the statement
+            raise Unspecified('the message body of dtml-raise failed')
         raise t(msg)
 
 
